@@ -1335,3 +1335,17 @@ package regexp2
 //@     invariant 0 <= startAt && startAt <= searchAt && MinBytes(input, startAt, *minRequiredLength)
 //@     invariant forall k int {input[k]} :: startAt <= k && k < searchAt && k < len(input) && ScanHas(*scanner, input[k]) ==> !BackClear(input, k, scanner.distance, startAt)
 //@     decreases len(input) - searchAt
+
+// ---- raw-string multi-prefix filter (fallback path) ----
+//@ spec func AnyPrefOccS(s string, k int, prefixes []string, ic bool) bool = exists q int {mark(q)} {prefixes[q]} :: 0 <= q && q < len(prefixes) && len(prefixes[q]) > 0 && PrefOccS(s, k, prefixes[q], ic)
+//@ func indexAnyPrefixFallback(input string, startAt int, prefixes []string, ignoreCase bool, minRequiredLength int) (candidateByteIndex int, ok bool)
+//@   props C02 C03 C10
+//@   requires forall q int {prefixes[q]} :: 0 <= q && q < len(prefixes) ==> len(prefixes[q]) > 0
+//@   ensures[hit]  ok ==> startAt <= candidateByteIndex && AnyPrefOccS(input, candidateByteIndex, prefixes, ignoreCase) &&
+//@                    forall k int {mark(k - startAt)} :: startAt <= k && k < candidateByteIndex ==> !AnyPrefOccS(input, k, prefixes, ignoreCase)
+//@   ensures[miss] !ok && MinBytes(input, startAt, minRequiredLength) ==> forall k int {mark(k - startAt)} :: startAt <= k ==> !AnyPrefOccS(input, k, prefixes, ignoreCase)
+//@   loop 0:
+//@     invariant 0 <= startAt && startAt <= len(input) && -1 <= rangeindex && rangeindex < len(prefixes) && -1 <= best && remaining == input[startAt:]
+//@     invariant best >= 0 ==> exists q int {mark(q)} {prefixes[q]} :: 0 <= q && q <= rangeindex && PrefOccS(input, startAt + best, prefixes[q], ignoreCase)
+//@     invariant forall q int, k int {mark(q), mark(k - startAt)} :: 0 <= q && q <= rangeindex && startAt <= k && (best < 0 || k < startAt + best) ==> !PrefOccS(input, k, prefixes[q], ignoreCase)
+//@     decreases len(prefixes) - rangeindex
